@@ -1011,6 +1011,9 @@ def rotate_shift_mask_simplifier(a, b):
     bitwidth = lshift_ + rshift_
     if bitwidth not in (32, 64):
         return None
+    # the two shifts only form a rotation if they add up to the width of the value
+    if bitwidth != a_00.size():
+        return None
 
     # is the second argument a mask?
     # Note: the following check can be further loosen if we want to support more masks.
